@@ -101,8 +101,9 @@ class Scenario:
     """setup() builds fresh real objects and returns a state dict; op(state) is the operation that is
     faulted; complete(state) lists the method sets that count as "the complete set" afterwards."""
 
-    def __init__(self, name, mspecs, sigma, pre, op, after_sets, annotate=annot.annotate, carrier=None):
+    def __init__(self, name, mspecs, sigma, pre, op, after_sets, annotate=annot.annotate, carrier=None, post=None):
         self.name = name
+        self.post = post  # an operation carried out (without fault) after the interrupted one and before the probes
         self.mspecs = mspecs
         self.sigma = sigma
         self.pre = pre
@@ -176,12 +177,16 @@ def scenarios(tier):
         Scenario("first-call/dispatch", BASE, SIGMA, _noop, _first_call("dispatch", k1), [ids(BASE)]),
         Scenario("cache-miss/call_next-chain", BASE, SIGMA, _warm([5]), _call(k1), [ids(BASE)]),
         Scenario("rebuild/register-changes-entry-point", BASE, SIGMA2, _warm([k1, 5]), _register(7), [ids(BASE), ids(BASE) + (7,)]),
+        # the interrupted operation is followed by a registration: the function must then serve the new method set
+        Scenario("first-call-interrupted/then-register", BASE, SIGMA2, _noop, _first_call("dispatch", k1), [ids(BASE) + (7,)], post=_register(7)),
         LinkedScenario("rebuild/linked-children-of-unbuilt-parent", BASE, SIGMA[:3], _noop, _register_on_parent(8), [ids(BASE), ids(BASE) + (8,)]),
     ]
     if tier != "quick":
         S += [
             Scenario("first-call/Ovld.__call__", BASE, SIGMA, _noop, _first_call("ovld", k0), [ids(BASE)]),
             Scenario("rebuild/register-after-use", BASE, SIGMA, _warm([k1, 5]), _register(8), [ids(BASE), ids(BASE) + (8,)]),
+            Scenario("cache-miss-interrupted/then-register", BASE, SIGMA2, _warm([5]), _call(k1), [ids(BASE) + (7,)], post=_register(7)),
+            Scenario("register-interrupted/then-unregister", BASE, SIGMA, _warm([k1, 5]), _register(8), [tuple(i for i in ids(BASE) if i != 2), tuple(i for i in ids(BASE) if i != 2) + (8,)], post=_unregister(2)),
             Scenario("first-use/__get__", BASE, SIGMA, _noop, _get, [ids(BASE)]),
             Scenario("first-use/resolve", BASE, SIGMA, _noop, _resolve(k1), [ids(BASE)]),
             Scenario("rebuild/unregister-after-use", BASE, SIGMA, _warm([k1, 5]), _unregister(2), [ids(BASE), tuple(i for i in ids(BASE) if i != 2)]),
@@ -288,6 +293,12 @@ def explore_scenario(sc, shard, nshards, acc):
                     raise core.HarnessError(f"{sc.name}: fault {k}/{N} did not surface ({out!r}); replay diverged")
                 where = tr.where
                 p = st["prog"]
+                if sc.post is not None:
+                    try:
+                        sc.post(st)
+                    except Exception:  # noqa  a later operation that fails loudly is not a silent partial dispatch
+                        acc.count("post_operation_refused")
+                        continue
                 # the complete set = what is registered after the fault (an interrupted register / unregister
                 # either took effect or did not)
                 live = registered_ids(p)
